@@ -3236,6 +3236,46 @@ class Canon:
             scan(m.tree, False)
         return set() if "*" in other else ctor - other
 
+    def _final_for_class(self, cls, attr: str) -> bool:
+        """is `self.<attr>` of an instance of cls bound by constructors only?  Every store to an attribute of that name in the program is
+        `self.<attr> = ..` inside a method of some class; none of the classes that store it outside a constructor is related to cls."""
+        if cls is None:
+            return False
+        if not hasattr(self, "_attr_store_sites"):
+            sites: dict[str, list] = {}
+            for m_ in self.prog.modules.values():
+                owner = {}
+                for c_ in m_.classes.values():
+                    for f_ in c_.methods.values():
+                        for n in ast.walk(f_):
+                            owner[id(n)] = (c_, f_)
+                for n in ast.walk(m_.tree):
+                    if isinstance(n, ast.Attribute) and isinstance(n.ctx, (ast.Store, ast.Del)):
+                        cf = owner.get(id(n))
+                        is_self = cf is not None and isinstance(n.value, ast.Name) and cf[1].args.args and n.value.id == cf[1].args.args[0].arg
+                        # (an alternative constructor fills in the object it has just made with X.__new__(X))
+                        made = cf is not None and isinstance(n.value, ast.Name) and any(
+                            isinstance(k, ast.Assign) and len(k.targets) == 1 and isinstance(k.targets[0], ast.Name) and k.targets[0].id == n.value.id
+                            and isinstance(k.value, ast.Call) and isinstance(k.value.func, ast.Attribute) and k.value.func.attr == "__new__" for k in ast.walk(cf[1]))
+                        if made:
+                            sites.setdefault(n.attr, []).append((cf[0], "__new__"))
+                            continue
+                        sites.setdefault(n.attr, []).append((cf[0] if is_self else None, cf[1].name if cf else None))
+                    if isinstance(n, ast.Call) and u(n.func) in ("setattr", "object.__setattr__", "delattr"):
+                        sites.setdefault("*", []).append((None, None))
+            self._attr_store_sites = sites
+        sites = self._attr_store_sites
+        if "*" in sites:
+            return False
+        for k_, fname in sites.get(attr, []):
+            if k_ is None:
+                return False
+            if fname in ("__init__", "__post_init__", "__new__"):
+                continue
+            if k_ in cls.mro or cls in k_.mro:
+                return False
+        return True
+
     def explicit_base_init(self, stmts, module, cls):
         """Base.__init__(self, a, f=b) with Base a dataclass of the receiver's MRO whose constructor is the generated one:
         the field assignments it performs (self.f = value, in field order; defaults for the fields not passed)"""
@@ -3407,6 +3447,7 @@ class Canon:
         bound once to a local that is only ever CALLED or passed on: a function of a module and a method of an object do not change,
         so the local is the attribute expression, wherever it is read (r not rebound in the function)."""
         cand = {}
+        refs = {}
         stores = {}
         for s_ in stmts:
             for n in ast.walk(s_):
@@ -3468,7 +3509,13 @@ class Canon:
                 is_meth = s_.value.attr in self._method_names and not s_.value.attr.startswith("__")
                 if is_mod or is_meth:
                     cand[x] = s_
-        if not cand:
+                elif len(ch) == 2 and fn.name not in ("__init__", "__post_init__", "__new__"):
+                    # x = r.a  with `a` bound only by constructors anywhere in the program: no call can rebind it, x IS r.a
+                    if not hasattr(self, "_final_attr_names"):
+                        self._final_attr_names = self._final_attrs()
+                    if s_.value.attr in self._final_attr_names or (root == "self" and self._final_for_class(getattr(self, "_cur_cls", None), s_.value.attr)):
+                        refs[x] = s_
+        if not cand and not refs:
             return stmts
         # the alias is only called or handed on (never compared, stored into a structure that outlives .., rebound)
         ok = dict(cand)
@@ -3488,6 +3535,13 @@ class Canon:
                 for k in ast.walk(n):
                     if isinstance(k, ast.Name) and k.id in ok and isinstance(k.ctx, ast.Load):
                         ok.pop(k.id, None)       # (read by a closure, which is looked up in the source as written)
+        # (object aliases may be read in any position; not when a closure reads them)
+        for n in ast.walk(mod_):
+            if isinstance(n, (ast.FunctionDef, ast.AsyncFunctionDef, ast.Lambda)):
+                for k in ast.walk(n):
+                    if isinstance(k, ast.Name) and k.id in refs and isinstance(k.ctx, ast.Load):
+                        refs.pop(k.id, None)
+        ok.update(refs)
         if not ok:
             return stmts
         sub = {x: a.value for x, a in ok.items()}
